@@ -51,6 +51,21 @@ theorem keywords_alone_miss_console :
 theorem escape_cutoff_is_loop_body :
     escapeCutoffs = [("FuncLit", "n.Type"), ("ForStmt", "n.Body"), ("RangeStmt", "n.Body")] := by decide
 
+/-- a template leaves an unsigned 32-bit result normalised (non-negative JS number) when it is the `… >>> 0` form or goes through
+    `fixNumber` (which appends `>>> 0` for unsigned 32-bit types and masks the narrower ones) -/
+def normalisedTemplate (e : String × String × String × Bool) : Bool :=
+  e.2.2.2 || ["(%e %t %e) >>> 0"].contains e.2.2.1
+
+/-- **unsigned_bitops_normalised** — "int, uint and uintptr are 32 bits wide": JavaScript's `&`, `|`, `^`, `~` yield SIGNED
+    32-bit numbers, so every template `translateExpr` emits for `&`, `|`, `&^`, `^` on an unsigned operand type must
+    re-normalise the result; a bare `x & mask` is negative whenever bit 31 survives (`0xDEADBEEF & 0xFFFF0000` = -559087616).
+    Every `return` of those branches that can be reached for an unsigned type (guard `unsigned`, or no guard) is normalised,
+    and the `&` / `|` branch has exactly the two templates below (no special case for constant operands). -/
+theorem unsigned_bitops_normalised :
+    (bitopTemplates.filter (fun e => e.2.1 == "unsigned" || e.1 != "AND,OR")).all normalisedTemplate = true ∧
+    bitopTemplates.filter (fun e => e.1 == "AND,OR") =
+      [("AND,OR", "unsigned", "(%e %t %e) >>> 0", false), ("AND,OR", "any", "%e %t %e", false)] := by decide
+
 /-- the obligation is not vacuous -/
 example : "arguments" ∈ usedUnqualified ∧ "this" ∈ usedUnqualified ∧ "undefined" ∈ usedUnqualified ∧
     "Uint8Array" ∈ usedUnqualified := by decide
